@@ -95,6 +95,14 @@ struct Prog {
     if (size() != off) return fail("bind-bytes", "bind appended bytes");
     return true;
   }
+  bool do_align(uint32_t n) {
+    size_t before = size();
+    Error e = a->align(AlignMode::kCode, n);
+    if (e != Error::kOk) { any_error = true; errors++; if (size() != before) return fail("failed-align-appended", "align failed but appended bytes"); return true; }   // e.g. AArch64 code alignment from an odd offset
+    if (size() % n) return fail("align-size", "section size not aligned after align()");
+    if (size() - before >= n) return fail("align-size", "align() appended a whole alignment unit or more");
+    return true;
+  }
   bool do_section(int s) { Error e = a->section(s == 0 ? code.text_section() : sec2); if (e != Error::kOk) return fail("section", "section switch failed"); return true; }
 
   // emits one reference; returns false only on a violation
@@ -272,7 +280,7 @@ struct Prog {
 };
 
 // ---- op alphabet for histories ---------------------------------------------------------------------------
-struct OpDef { int type; int a, b; };   // type 0 ref(kind a, label b), 1 bind(a), 2 pad(a), 3 section(a)
+struct OpDef { int type; int a, b; };   // type 0 ref(kind a, label b), 1 bind(a), 2 pad(a), 3 section(a), 4 align(a)
 static std::vector<OpDef> alphabet(int arch, bool thorough) {
   std::vector<OpDef> v;
   std::vector<int> ks = kinds_of(arch);
@@ -281,17 +289,18 @@ static std::vector<OpDef> alphabet(int arch, bool thorough) {
   v.push_back({1, 0, 0}); v.push_back({1, 1, 0});
   v.push_back({2, arch == AA64 ? 4 : 1, 0}); v.push_back({2, arch == AA64 ? 128 : 126, 0}); v.push_back({2, arch == AA64 ? 32768 : 130, 0}); v.push_back({2, 70000, 0});
   v.push_back({3, 0, 0}); v.push_back({3, 1, 0});
+  v.push_back({4, 16, 0});
   return v;
 }
 static std::string op_str(const OpDef& o) {
   char b[64];
   if (o.type == 0) snprintf(b, sizeof b, "ref(%s,L%d)", kind_name(o.a), o.b); else if (o.type == 1) snprintf(b, sizeof b, "bind(L%d)", o.a);
-  else if (o.type == 2) snprintf(b, sizeof b, "pad(%d)", o.a); else snprintf(b, sizeof b, "section(%d)", o.a);
+  else if (o.type == 2) snprintf(b, sizeof b, "pad(%d)", o.a); else if (o.type == 3) snprintf(b, sizeof b, "section(%d)", o.a); else snprintf(b, sizeof b, "align(%d)", o.a);
   return b;
 }
 static bool run_ops(Prog& p, const std::vector<OpDef>& ops) {
   for (auto& o : ops) {
-    bool ok = o.type == 0 ? p.do_ref(o.a, o.b, (o.a == K_MEM || o.a == K_LEA || o.a == K_MEM_IMM8) ? 8 : 0) : o.type == 1 ? p.do_bind(o.a) : o.type == 2 ? p.do_pad(o.a) : p.do_section(o.a);
+    bool ok = o.type == 0 ? p.do_ref(o.a, o.b, (o.a == K_MEM || o.a == K_LEA || o.a == K_MEM_IMM8) ? 8 : 0) : o.type == 1 ? p.do_bind(o.a) : o.type == 2 ? p.do_pad(o.a) : o.type == 3 ? p.do_section(o.a) : p.do_align(o.a);
     if (!ok) return false;
   }
   return true;
